@@ -103,6 +103,12 @@ def rule_fileset_source(ctx, rep):
             b = bind_args(calls[0], mf, False)
             ex, inc = b.get("exclude_paths"), b.get("include_paths")
             ok = ex is not None and inc is not None and want_ex in unparse(ex) and want_in in unparse(inc) and "directory" in unparse(b.get("parent_path", ast.Constant(value="")))
+            # None is the sentinel for "use the default excludes": find-and-fix must be able to pass it, remediation never
+            can_be_none = isinstance(ex, ast.BoolOp) and any(isinstance(v, ast.Constant) and v.value is None for v in ex.values)
+            if name == "find_and_fix_paths":
+                ok = ok and can_be_none
+            else:
+                ok = ok and not can_be_none and isinstance(ex, ast.Attribute)
         rep.check("R-FILESET-SOURCE", fn.qname, fn.loc(), ok, "match_files-args",
                   f"{name} does not call match_files(directory, ..., exclude_paths<-{want_ex}, include_paths<-{want_in})")
     fa = ctx.prog.func(f"{CTX}.files_to_analyze")
@@ -159,10 +165,13 @@ def rule_enum_siblings(ctx, rep):
         for c in comps:
             for g in c.generators:
                 enumerates = isinstance(g.iter, ast.Call) and last_attr(g.iter.func) in ("rglob", "glob", "iterdir")
-                filt = any(
-                    (False, "is_symlink") in [(False, last_attr(x.operand.func)) for x in ast.walk(cond) if isinstance(x, ast.UnaryOp) and isinstance(x.op, ast.Not) and isinstance(x.operand, ast.Call)]
-                    for cond in g.ifs
-                )
+                # the kept elements must *all* be non-symlinks: a negative is_symlink fact established by the filter as a whole
+                from ..flow import cond_facts
+
+                facts = set()
+                for cond in g.ifs:
+                    facts |= cond_facts(cond, True)
+                filt = any((not pol) and txt.endswith("is_symlink()") for pol, txt in facts)
                 if enumerates and filt:
                     ok = True
         rep.check("R-ENUM-SIBLINGS", q, fn.loc(), ok, "symlink-filter",
